@@ -96,6 +96,29 @@ func (d *storeDebugger) snap(head string) {
 	}
 	sb.WriteString(" |")
 	for _, n := range d.pool {
+		if strings.HasPrefix(n, "@") {
+			// ctx cells no variable of this scope reads: what `error <code> <response>;` writes
+			c := d.i.VerifStoreContext()
+			switch n {
+			case "@obj.status":
+				sb.WriteString(" " + stVal(c.ObjectStatus))
+			case "@obj.response":
+				sb.WriteString(" " + stVal(c.ObjectResponse))
+			case "@workspace":
+				// the accounting counter `set` / `add` of a request header charges (Gen/StoreEffects.v: Set, Add)
+				sb.WriteString(" (I " + u64(uint64(c.RequestWorkspaceBytes)) + " 0)")
+			case "@fastly.error":
+				// what the built-ins listed with FastlyError in Gen/StoreEffects.v write
+				if c.FastlyError == nil {
+					sb.WriteString(" (nil)")
+				} else {
+					sb.WriteString(" " + stVal(c.FastlyError))
+				}
+			default:
+				sb.WriteString(" (undef)")
+			}
+			continue
+		}
 		v, err := d.i.ProcessExpression(&ast.Ident{Meta: ast.New(token.Token{Type: token.IDENT, Literal: n}, 0), Value: n})
 		if err != nil {
 			sb.WriteString(" (undef)")
